@@ -200,6 +200,12 @@ class MCLevyCopulaSimulation:
                 for j in range(i + 1, dimension):
                     adj_matrix[i, j] = adj_matrix[j, i] = next(outputs)
 
+        for i, m in enumerate(models):
+            if m.jump_of_finite_variation():
+                # nothing is added for a margin of finite variation (as in the one-dimensional chain)
+                adj_matrix[i, :] = 0.0
+                adj_matrix[:, i] = 0.0
+
         # adj_matrix holds the (co)variances of the jumps inside the central cell (see vol_adjustment_ij), not volatilities
         variance_matrix = adj_matrix + model_variance
         diffusion_matrix = scipy.linalg.sqrtm(variance_matrix)
